@@ -187,6 +187,7 @@ func specItemType(b []byte, acc protowire.Number) protowire.Number {
 // @ props C47
 // @ mode int
 // @ abstract protowire.specVarintLen protowire.specVarintVal protowire.specTagLen protowire.specBytesLen protowire.specValueLen
+// @ site m0 := message[nn:]: nn == protowire.SpecVarintLen(message)
 // @ loop 1 invariant suffixOf(b, old(b)) && ilen == len(old(b))
 // @ loop 1 invariant 0 <= typeid && typeid <= math.MaxInt32
 // @ loop 1 invariant message == nil || freshSlice(message) || (sameBase(message, old(b)) && cap(message) == len(message))
